@@ -133,7 +133,8 @@ def writer(ctx):
     ctx.rule(rid, "lr_guarded::modify waits only for m_writeMutex and for the reader counters, and waits on the "
              "counter new readers register in only after flipping m_countingLeft", floor=8)
     fb, eng = ctx.fb, ctx.eng
-    fs = list(fb.functions(rec=LR, name="modify"))
+    from . import c03 as _c03
+    fs = list(_c03.writer_functions(ctx))
     if not fs:
         ctx.broken("lr_guarded::modify not instantiated")
     for f in fs:
